@@ -18,9 +18,11 @@ EXPLANATION = (
     'of the compact JSON form written by sym_jsonify equal the keys read by '
     'from_json; (c) every producer of DNAs (first/next/random, from_dict, '
     'from_numbers, clone) binds the spec; (d) search operators re-bind a node '
-    'placed at a new position or rebuild the DNA through from_dict.  '
+    'placed at a new position or rebuild the DNA through from_dict; (e) what '
+    'the literal views print is what the parser compares with, and clones do '
+    'not inherit lookup caches.  '
     'Losslessness of each view over all specs and DNAs is not decided.')
-FLOORS = {'C12.a': 8, 'C12.b': 4, 'C12.c': 6, 'C12.d': 4}
+FLOORS = {'C12.a': 4, 'C12.b': 2, 'C12.c': 3, 'C12.d': 2, 'C12.e': 1}
 FILES = ['pyglove/core/geno/base.py', 'pyglove/core/geno/categorical.py',
          'pyglove/ext/evolution/mutators.py', 'pyglove/ext/evolution/recombinators.py']
 G = 'pyglove.core.geno.'
@@ -157,11 +159,61 @@ def rule_c(ctx):
     w = w or (g.can_skip(s, st) if not st(s) else None)
   ctx.ob('C12.c', us.fq, w is None, 'use_spec records the spec on every path that validated the node', us.loc,
          f'a path returns without storing _spec: {w}')
+  # exactly one place records the spec, and it lies behind the dispatch that
+  # validates/binds the children (no fast path that re-labels the node only)
+  stores = [k for k in g.nodes if st(k)]
+  disp = {k.id for k in g.nodes if k.kind == 'test' and A.unparse(k.ast) in ('spec.is_space', 'spec.is_categorical')}
+  seen_, _ = g.reach(g.entry, blocked_nodes=disp, follow_exc=False)
+  early_store = [k for k in stores if k.id in seen_]
+  ctx.ob('C12.c', us.fq + '#single-binding-point', len(stores) == 1 and not early_store,
+         'the spec is recorded in exactly one place, after the per-kind dispatch that binds every '
+         'descendant to the decision point of its own position', us.loc,
+         f'{len(stores)} stores of self._spec, {len(early_store)} reachable before the dispatch: a node can '
+         f'be re-labelled while its descendants stay bound to the old position')
   # child specs: each child is bound to the spec of its own position
   t = A.unparse(us.node, 20000)
   ok = 'child.use_spec(subchoice)' in t and 'spec.subchoice(i)' in t and 'self.children[i].use_spec(elem_spec)' in t
   ctx.ob('C12.c', us.fq + '#children', ok,
          'use_spec binds child i to subchoice(i) / element i of the spec', us.loc, 'child binding changed')
+
+
+def rule_e(ctx):
+  """View strings can be parsed back: what format_candidate prints is what
+  candidate_index compares with; a cloned DNA does not inherit lookup caches."""
+  idx = ctx.index
+  f = idx.func(G + 'categorical.Choices.format_candidate')
+  allowed = {'index', 'len(self.candidates)', 'self.literal_values[index]'}
+  bad = []
+  n = 0
+  for r in [x for x in ast.walk(f.node) if isinstance(x, ast.Return) and x.value is not None]:
+    v = r.value
+    if isinstance(v, ast.JoinedStr):
+      for fv in v.values:
+        if isinstance(fv, ast.FormattedValue):
+          n += 1
+          t = A.unparse(fv.value)
+          if t not in allowed or fv.format_spec is not None or fv.conversion not in (-1, 115):
+            bad.append(f'`{{{t}}}` at line {r.lineno}')
+    elif A.unparse(v) not in allowed:
+      bad.append(f'`{A.unparse(v)}` at line {r.lineno}')
+  ctx.ob('C12.e', f.fq, not bad and n >= 4,
+         'the choice / literal views print the index, the candidate count and the literal value '
+         'verbatim, so candidate_index can match them back exactly', f.loc,
+         'a transformed value is printed: ' + ', '.join(bad) + ': from_dict rejects (or mis-reads) the '
+         'view of a DNA produced by to_dict')
+  ci = idx.func(G + 'categorical.Choices.candidate_index')
+  t = A.unparse(ci.node, 9000)
+  ok = 'literal != str(self.literal_values[index])' in t and '_CHOICE_AND_LITERAL_REGEX.match' in t
+  ctx.ob('C12.e', ci.fq, ok,
+         'candidate_index compares the parsed literal with str(literal_values[index])', ci.loc,
+         'literal comparison changed')
+  from sa.rules import c07
+  c = idx.cls(G + 'base.DNA')
+  m = c.methods.get('_sym_clone')
+  before = len(ctx.obs)
+  c07.rule_d(ctx, [(c, m)])
+  for o in ctx.obs[before:]:
+    o.rule = 'C12.e'
 
 
 def rule_d(ctx):
@@ -199,7 +251,7 @@ def rule_d(ctx):
              'offspring are rebuilt from per-decision dictionaries through DNA.from_dict (which binds '
              'every node to its own decision point), never assembled from raw DNA nodes', f.loc,
              'offspring assembled with raw pg.DNA(...) nodes and no from_dict/use_spec')
-  if n < 3:
+  if n < 2:
     raise AnalysisError(f'only {n} recombine functions found')
 
 
@@ -209,4 +261,5 @@ def run(ctx):
   rule_b(ctx)
   rule_c(ctx)
   rule_d(ctx)
+  rule_e(ctx)
   ctx.assume('losslessness of each view over all specs/DNAs is not decided')
